@@ -1,7 +1,7 @@
 (* Property C13: the library functions that carry Lua names agree with Lua 5.4.
    Only the property theorems, each closed by [exact] of a lemma and followed by Print Assumptions.
    [lua_*] = reference (lstrlib.c / lutf8lib.c / lmathlib.c / lvm.c), [nl_*] = Nelua's port. *)
-From C13 Require Import Model ModelDrv ProofsIdx ProofsOrd ProofsDrv.
+From C13 Require Import Model ModelDrv ModelPack ModelUtf8 ProofsIdx ProofsOrd ProofsDrv ProofsPack ProofsUtf8.
 Local Open Scope Z_scope.
 
 (* ---- (a) index normalisation ---- *)
@@ -151,3 +151,64 @@ Theorem C13_max2_eq_lua_partial : forall (A : Type) (lt : A -> A -> bool) (x y :
   nl_max2_gen A lt x y = lua_max2_gen A lt x y /\ nl_min2_gen A lt x y = lua_min2_gen A lt x y.
 Proof. exact max2_eq_lua_partial. Qed.
 Print Assumptions C13_max2_eq_lua_partial.
+
+(* ---- (e) UTF-8 ---- *)
+Theorem C13_utf8_roundtrip : forall x, 0 <= x <= 2147483647 ->
+  exists bs, utf8esc x = Some bs /\ 1 <= slen bs <= 6 /\
+             forall rest, nl_utf8decode (bs ++ rest) false = Some (x, slen bs).
+Proof. exact utf8_roundtrip. Qed.
+Print Assumptions C13_utf8_roundtrip.
+
+Theorem C13_utf8_strict_spec : forall s,
+  nl_utf8decode s true =
+  match nl_utf8decode s false with
+  | Some (code, n) => if (NL_MAXUNICODE <? code) || ((NL_SURR_LO <=? code) && (code <=? NL_SURR_HI)) then None else Some (code, n)
+  | None => None
+  end.
+Proof. exact strict_decode_spec. Qed.
+Print Assumptions C13_utf8_strict_spec.
+
+Theorem C13_utf8_decode_eq_lua : forall s strict, nl_utf8decode s strict = lua_utf8decode s strict.
+Proof. exact decode_eq_lua. Qed.
+Print Assumptions C13_utf8_decode_eq_lua.
+
+(* full statement [utf8char_eq_lua] is false today: utf8.char casts to uint32 before its range check *)
+Theorem C13_utf8char_eq_lua_refuted : ~ utf8char_eq_lua.
+Proof. exact utf8char_eq_lua_refuted. Qed.
+Print Assumptions C13_utf8char_eq_lua_refuted.
+
+Theorem C13_utf8char_eq_lua_partial : forall v b, 0 <= v < two32 -> lua_utf8char v = LVal b -> nl_utf8char v = Val b.
+Proof. exact utf8char_eq_lua_partial. Qed.
+Print Assumptions C13_utf8char_eq_lua_partial.
+
+(* ---- (f) string.pack / unpack of sized integers ---- *)
+Theorem C13_pack_unpack_int_roundtrip : forall a size little, 1 <= size <= 16 -> in_i64 a ->
+  (size < 8 -> - 2 ^ (8 * size - 1) <= a < 2 ^ (8 * size - 1)) ->
+  nl_unpack_int (nl_pack_int a size little) size little true = Some a.
+Proof. exact pack_unpack_int_roundtrip. Qed.
+Print Assumptions C13_pack_unpack_int_roundtrip.
+
+Theorem C13_pack_unpack_uint_roundtrip : forall a size little, 1 <= size <= 16 -> in_i64 a ->
+  (size < 8 -> 0 <= a < 2 ^ (8 * size)) -> (8 < size -> 0 <= a) ->
+  nl_unpack_int (nl_pack_uint a size little) size little false = Some a.
+Proof. exact pack_unpack_uint_roundtrip. Qed.
+Print Assumptions C13_pack_unpack_uint_roundtrip.
+
+Theorem C13_pack_int_eq_lua : forall a size little r, lua_pack_int a size little = LVal r -> nl_pack_int a size little = r.
+Proof. exact pack_int_eq_lua. Qed.
+Print Assumptions C13_pack_int_eq_lua.
+
+Theorem C13_pack_uint_eq_lua_partial : forall a size little r, size <= 8 \/ 0 <= a ->
+  lua_pack_uint a size little = LVal r -> nl_pack_uint a size little = r.
+Proof. exact pack_uint_eq_lua_partial. Qed.
+Print Assumptions C13_pack_uint_eq_lua_partial.
+
+(* full statement [pack_uint_eq_lua] is false today: unsigned sizes above 8 are sign-extended *)
+Theorem C13_pack_uint_eq_lua_refuted : ~ pack_uint_eq_lua.
+Proof. exact pack_uint_eq_lua_refuted. Qed.
+Print Assumptions C13_pack_uint_eq_lua_refuted.
+
+(* full statement [pack_int_no_fabrication] is false today: no overflow check in packint *)
+Theorem C13_pack_int_no_fabrication_refuted : ~ pack_int_no_fabrication.
+Proof. exact pack_int_no_fabrication_refuted. Qed.
+Print Assumptions C13_pack_int_no_fabrication_refuted.
